@@ -66,6 +66,13 @@ pub struct Case {
     /// stream, and what the caller gets is still judged against the decoded payload
     #[serde(default)]
     pub gzip: bool,
+    /// when > 0: an earlier chunked response on the same thread is read for this many bytes and dropped before the case runs
+    #[serde(default)]
+    pub prelude: u8,
+    /// (gzip only) octets that follow the coded stream inside the frame: 1 = 30 zero octets, 2 = a second gzip member; they are not
+    /// payload, but they are part of the frame, which therefore still has to arrive completely
+    #[serde(default)]
+    pub gzip_padding: u8,
 }
 
 pub struct C02;
@@ -87,6 +94,7 @@ fn base_strategy() -> BoxedStrategy<(Payload, Framing)> {
                 sizes: vec![s],
                 styles: vec![st],
                 last: ChunkStyle { hex: 0, zeros: 0, ext: 0 },
+                trailers: 0,
             }))
         ),
     ]
@@ -376,9 +384,9 @@ or >=1 read issued after the first error; distinct by hash of the serialised cas
             seg(),
             fault_strategy(),
             gen::read_plan_with_text_reader(),
-            (proptest::collection::vec(gen::read_size(), 0..6), prop_oneof![1 => Just(0u8), 1 => 0u8..12], prop::bool::weighted(0.15)),
+            (proptest::collection::vec(gen::read_size(), 0..6), prop_oneof![1 => Just(0u8), 1 => 0u8..12], prop::bool::weighted(0.15), prop_oneof![4 => Just(0u8), 1 => 1u8..=39], 0u8..3),
         )
-            .prop_map(|((payload, framing), hdr_style, seg, fault, reads, (rereads, headers, gzip))| Case {
+            .prop_map(|((payload, framing), hdr_style, seg, fault, reads, (rereads, headers, gzip, prelude, gzip_padding))| Case {
                 payload,
                 framing,
                 hdr_style,
@@ -388,11 +396,17 @@ or >=1 read issued after the first error; distinct by hash of the serialised cas
                 rereads,
                 headers,
                 gzip,
+                prelude,
+                gzip_padding,
             })
             .boxed()
     }
 
     fn check(case: &Case, ctx: &mut Ctx) -> Outcome {
+        if case.prelude > 0 {
+            crate::client::prelude_partial_read(case.prelude as usize);
+            ctx.label("after-a-partially-read-response-on-the-same-thread");
+        }
         let mut payload = case.payload.bytes();
         if matches!(case.reads, ReadPlan::TextReader(_)) {
             // the streaming text reader decodes (windows-1252 by default): keep the payload ASCII so that the decoded text is
@@ -407,7 +421,19 @@ or >=1 read issued after the first error; distinct by hash of the serialised cas
             crate::refhttp::deflate::stored_blocks(&mut w, &payload, &[1000, 37, 65535], true);
             w.align();
             ctx.label("gzip-coded-body");
-            Some(crate::refhttp::deflate::gzip_frame(&w.out, &payload, &Default::default()))
+            let mut g = crate::refhttp::deflate::gzip_frame(&w.out, &payload, &Default::default());
+            match case.gzip_padding {
+                1 => g.extend_from_slice(&[0u8; 30]),
+                2 => {
+                    let mut w2 = crate::refhttp::deflate::BitWriter::new();
+                    crate::refhttp::deflate::stored_blocks(&mut w2, b"tail", &[65535], true);
+                    w2.align();
+                    g.extend_from_slice(&crate::refhttp::deflate::gzip_frame(&w2.out, b"tail", &Default::default()));
+                }
+                _ => {}
+            }
+            ctx.label_if(case.gzip_padding != 0, "gzip:octets-after-the-coded-stream-inside-the-frame");
+            Some(g)
         } else {
             None
         };
